@@ -14,12 +14,15 @@ use std::task::{Context, Poll};
 thread_local! {
     static RT: tokio::runtime::Runtime = tokio::runtime::Builder::new_current_thread()
         .enable_time()
+        .start_paused(true)
         .build()
         .expect("tokio runtime");
 }
 
-/// Runs a future to completion on this thread's current-thread tokio runtime (real clock;
-/// nothing in these checks waits on a timer that is expected to fire).
+/// Runs a future to completion on this thread's current-thread tokio runtime.  The tokio
+/// clock is paused: it only moves when the runtime is idle, which never happens here (every
+/// `Pending` of the scripted streams wakes the task at once), so the codec's `timeout`s
+/// cannot fire because of machine load.
 pub fn block_on<F: Future>(f: F) -> F::Output {
     RT.with(|rt| rt.block_on(f))
 }
